@@ -252,6 +252,8 @@ def handle_vs_disk(p: Proto) -> List[str]:
                     mu = str(r.manifest.manifest_uuid)
                     if mu != newest_committed[-1]["mfu"]:
                         mis.append(f"manifest in memory {mu} is not the one of the newest committed container {newest_committed[-1]['mfu']}")
+                    elif protolib.qdigest(bytes(r.manifest)) != newest_committed[-1]["mfh"]:
+                        mis.append("the manifest object in memory does not serialise to the bytes whose hashsum its container records")
                 except ValueError:
                     mis.append("no manifest loaded although a committed container refers to one")
     except Exception as ex:
